@@ -38,6 +38,8 @@ fn check_derived(w: &mut World<'_>, puts: &BTreeMap<String, (bool, bool)>, ctx: 
             w.rep.violation(&format!("C26:card-source-frame-wrong:{cls}"), format!("{ctx}: card {entity}/{slot}={value:?} of the put whose document is frame {expected} says source_frame_id = {src} ({n_frames} frames exist)"), d);
             continue;
         }
+        // a document deleted later keeps its cards; its text may no longer be readable
+        if w.model.frames.get(src as usize).is_some_and(|m| m.status != memvid_core::types::FrameStatus::Active) { continue; }
         match w.mem().frame_text_by_id(src) {
             Ok(t) if t.to_lowercase().contains(&value.to_lowercase()) => {}
             Ok(_) => { w.violation("C26:frame-text-lacks-card-value", format!("{ctx}: text of frame {src} does not contain the card value {value:?}")); return false; }
@@ -83,6 +85,14 @@ pub fn c26(rep: &mut Report, scratch: &std::path::Path, rng: &mut Rng, histories
                     let op = json!({"op": "put", "text": text, "token": code, "ts": 1_700_000_000 + i as i64, "uri": format!("mv2://d/{code}"), "instant": queued || w.rng.chance(1, 2), "enable_embedding": queued, "triplets": true});
                     puts.insert(code, (triplet, queued));
                     if !exec_op(&mut w, &cfg, &op) { break; }
+                } else if roll < 68 {
+                    // a delete between puts: tombstones go through the same log as frames, so log sequence numbers and
+                    // frame ids drift apart even without a commit in between
+                    let active: Vec<u64> = w.model.frames.iter().filter(|m| m.status == memvid_core::types::FrameStatus::Active && !m.is_chunk && !w.has_pending_op_on(m.id)).map(|m| m.id).collect();
+                    if let Some(t) = active.first().copied() {
+                        w.rep.count("deletes_between_puts");
+                        if !exec_op(&mut w, &cfg, &json!({"op": "delete", "target": t})) { break; }
+                    }
                 } else if roll < 85 {
                     w.rep.count("commits_between_puts");
                     if !exec_op(&mut w, &cfg, &json!({"op": "commit"})) || !check_derived(&mut w, &puts, "after-commit") { break; }
